@@ -396,6 +396,27 @@ def check_ray_hits(ctx, db, f):
             bad = bad or ('the ray at ordinate %d is not counted for an edge from %d to %d%s' % (h, pp, pn, ' (it passes through the end vertex: a hole level with a corner of its parent finds no link)' if through_end else ''))
         if same_side and v:
             bad = bad or ('an edge from %d to %d is counted for a ray at %d that does not meet it' % (pp, pn, h))
+    # the second branch: the hole vertex lies ON a contour edge. Only an edge level with the ray can contain it without being crossed:
+    # over the same 27 orderings (abscissae chosen so that the vertex lies within the edge's x range) the branch is taken exactly when
+    # both end points have the ray's ordinate. (A slanted edge that merely starts at that ordinate must not anchor the slit at the hole.)
+    on_edge = cand.child('else') if cand.child('else') is not None and cand.child('else').k == 'IfStmt' else None
+    bad2 = None
+    if on_edge is not None:
+        for pn, pp, h in itertools.product(range(3), repeat=3):
+            env = {'p_next.Y': pn, 'p_prev.Y': pp, 'hole_min.Y': h}
+            if _ival(cand.child('cond'), env, f):
+                continue
+            for xs in ({'p_next.X': 0, 'hole_min.X': 1, 'p_prev.X': 2}, {'p_next.X': 2, 'hole_min.X': 1, 'p_prev.X': 0}):
+                e2 = dict(env)
+                e2.update(xs)
+                v2 = _ival(on_edge.child('cond'), e2, f)
+                if v2 is None:
+                    raise AnalysisBroken('link_holes: on-edge test `%s` not evaluable' % norm(on_edge.child('cond').text())[:80])
+                n += 1
+                level = pn == h and pp == h
+                if bool(v2) != level:
+                    bad2 = bad2 or ('for an edge from ordinate %d to %d and a hole vertex at ordinate %d within the edge\'s x range the on-edge branch is %s' % (pp, pn, h, 'taken although the edge is not level with the vertex: the slit is anchored at the hole vertex itself and the contour is pulled inward' if v2 else 'not taken although the vertex lies on this level edge'))
+        ctx.check(bad2 is None, 'R-TABLE', 'link_holes/on-level-edge', on_edge.loc(), 'the on-edge branch is taken exactly for edges level with the hole vertex', bad2)
     ctx.explored['valuations'] += n
     ctx.check(bad is None, 'R-TABLE', 'link_holes/ray-hits', cand.loc(), 'over all 27 orderings the crossing branch is taken exactly for edges the ray crosses or whose end vertex it passes through', bad)
 
